@@ -11,6 +11,7 @@
 package c08
 
 import (
+	"bytes"
 	"bufio"
 	"encoding/json"
 	"fmt"
@@ -181,8 +182,23 @@ func compileSig(th *starlark.Thread, s Sig) (f, g starlark.Value) {
 	if err != nil {
 		fw.Fatal("c08: signature %q does not compile: %v", src, err)
 	}
+	// the same definitions in a program that was written and read back
+	clear(reloadedOf)
+	if _, p, err := starlark.SourceProgramOptions(&syntax.FileOptions{}, "sig.star", src, func(string) bool { return false }); err == nil {
+		var buf bytes.Buffer
+		if err := p.Write(&buf); err == nil {
+			if p2, err := starlark.CompiledProgram(&buf); err == nil {
+				if g2, err := p2.Init(th, nil); err == nil {
+					reloadedOf[gl["f"]] = g2["f"]
+				}
+			}
+		}
+	}
 	return gl["f"], gl["g"]
 }
+
+// reloadedOf maps the def form of a signature to the same def of the program read back by CompiledProgram.
+var reloadedOf = map[starlark.Value]starlark.Value{}
 
 func mkSeq(c Call) starlark.Value {
 	if c.Seq < 0 {
@@ -316,6 +332,15 @@ func (e *env) checkBind(s Sig, f, g starlark.Value, c Call, pyDef, pyLam string,
 		}
 		if got != want {
 			report("bind-src", fnText, "compiled call", got, fmt.Sprintf("specification says %s; err=%q", want, etext))
+		}
+		if rf := reloadedOf[fn]; rf != nil {
+			gotR, _, etextR := safeCall(e.th, shape, starlark.Tuple{rf, mkSeq(c), mkDict(c)}, nil)
+			if st != nil {
+				st.Evals++
+			}
+			if gotR != want {
+				report("bind-reloaded", fnText, "compiled call of the function of the program written and read back", gotR, fmt.Sprintf("specification says %s; err=%q", want, etextR))
+			}
 		}
 		// the same call twice from one caller, both results kept
 		if want != failed {
